@@ -84,7 +84,7 @@ def obligation_id(prop, ob):
     return f"{prop}.{ob.fn}.{ob.name}"
 
 
-def verify(mod, tier, seed, only_fn=None):
+def verify(mod, tier, seed, only_fn=None, fast=False):
     """Full proof pass.  Returns dict with results per obligation."""
     source.reset()
     obs, info, undecided = run_specs(mod)
@@ -121,7 +121,11 @@ def verify(mod, tier, seed, only_fn=None):
         if k not in ok_labels:
             undecided.append(f"{k[0]}: every path condition reaching cover `{k[1]}` is inconsistent (vacuous proof guard)")
     verify.cover_stats = {"cover_points": len(set(cov_idx)), "consistent": len(ok_labels)}
-    res = solve.discharge(obs, timeout_ms=timeout, seed=seed, confirm=(tier == "thorough"))
+    if fast:
+        # a native failing input is already in hand: the proof pass only has to name the obligations that break
+        res = solve.discharge(obs, timeout_ms=5000, seed=seed, fallback=False)
+    else:
+        res = solve.discharge(obs, timeout_ms=timeout, seed=seed, confirm=(tier == "thorough"))
     out = []
     for ob, r in zip(obs, res):
         out.append({"id": obligation_id(mod.PROP, ob), "kind": ob.kind, "site": ob.site, "fn": ob.fn, "verdict": {"unsat": "proved", "sat": "refuted", "unknown": "unknown", "error": "unknown"}[r["verdict"]],
@@ -241,8 +245,9 @@ def main(mod, tier, seed, replay=None):
         if pr_cc:
             print(f"CHECKER-UNSOUND property={prop}: builtin model disagrees with CPython: {pr_cc[:3]}")
             return 3
+    battery = run_battery(mod, tier, seed)
     try:
-        results, info, undecided = verify(mod, tier, seed)
+        results, info, undecided = verify(mod, tier, seed, fast=bool(battery and battery.get("failures") and any(not any(k.get("status") == "known" and k.get("kind") == "native" and k["match"] in f.get("key", "") for k in known) for f in battery["failures"])))
     except Exception:
         traceback.print_exc()
         print(f"CHECKER-CRASH property={prop}")
@@ -257,7 +262,6 @@ def main(mod, tier, seed, replay=None):
         undecided_msgs.append("zero obligations generated")
     failed = [r for r in results if r["verdict"] != "proved"]
     grounded = {}
-    battery = run_battery(mod, tier, seed)
     if failed and not (battery and battery.get("failures")):
         grounded = refute_grounded(mod, [r["id"] for r in failed if r["verdict"] == "unknown"], seed)
         for r in failed:
@@ -333,9 +337,13 @@ def main(mod, tier, seed, replay=None):
         if r["verdict"] == "proved":
             backends[r["backend"]] = backends.get(r["backend"], 0) + 1
     samples = []
-    for r in results[:: max(1, len(results) // 4)][:4]:
+    # four written-out obligations: prefer postconditions / preserved invariants with a non-trivial goal
+    pref = [r for r in results if r["kind"] in ("post", "inv-preserved", "lock-invariant", "lemma") and not z3.is_true(r["_ob"].goal) and not z3.is_false(r["_ob"].goal)] or results
+    for r in pref[:: max(1, len(pref) // 4)][:4]:
         ob = r["_ob"]
-        samples.append({"id": r["id"], "kind": r["kind"], "site": r["site"], "verdict": r["verdict"], "smt2_head": solve.to_smt2(ob.pc, ob.goal)[-1200:]})
+        goal = str(ob.goal)
+        samples.append({"id": r["id"], "kind": r["kind"], "site": r["site"], "verdict": r["verdict"], "path_condition_size": len(ob.pc), "goal": goal[:700] + ("..." if len(goal) > 700 else ""),
+                        "smt2_tail": solve.to_smt2(ob.pc, ob.goal)[-600:]})
     ev = {
         "property_id": prop, "tier": tier, "seed": seed, "level": "proof",
         "coverage": {
